@@ -64,22 +64,43 @@ fn step_text(s: &Step) -> String { match s { Step::Add(c) => c.text(), Step::Uni
 pub fn run(ctx: &Ctx) -> Report {
     let mut rep = Report::new("C14", "holders of Vec / Set / MultiSet / Pair / Map (keys never unioned) / Vec-of-Set over four element constants; random sequences of holder insertions, unions of elements and runs of rules matching through the containers; after every step: holder equalities, holder table sizes and rule marks against the reference normal forms, semi-naive against naive, 1 thread against 4. non-trivial = a union that makes two distinct containers equal or collapses set/multiset elements (distinct by history)");
     let mut rng = Rng::new(ctx.seed ^ 0xC14);
-    let n = ctx.n(120, 2500);
     let mut lean_lines = vec![]; let mut lean_expect = vec![];
+    // small e-graphs (non-incremental container rebuild) and e-graphs with > 1000 containers of each kind
+    // (incremental rebuild driven by the reverse index contained-id -> containers)
+    cases(&mut rep, &mut rng, ctx.n(120, 2500), None, &mut lean_lines, &mut lean_expect);
+    {
+        const FILL: usize = 1100;
+        let mut base = EGraph::default();
+        let filler = format!("(constructor Fi (i64) E)\n(relation dd (i64))\n{}\n(rule ((dd x)) ((HV (vec-of (Fi x))) (HS (set-of (Fi x))) (HM (multiset-of (Fi x) (Fi x)))))\n(run 1)\n", (0..FILL).map(|i| format!("(dd {i})")).collect::<Vec<_>>().join(" "));
+        if engine::run(&mut base, &(HDR.to_string() + &filler)).is_ok() && base.get_size("HV") == FILL {
+            cases(&mut rep, &mut rng, ctx.n(40, 600), Some((&base, FILL, filler.clone())), &mut lean_lines, &mut lean_expect);
+        } else { rep.violate("correspondence", "c14-setup", "large-container setup failed".into(), json!({})); }
+    }
+    match run_driver(&lean_lines) {
+        Err(e) => rep.violate("correspondence", "driver-failure", e, json!({})),
+        Ok(m) => for (i, w) in lean_expect.iter().enumerate() { rep.traces_vs_model += 1; if &m[i] != w { rep.violate("correspondence", "c14-model-mismatch", format!("Lean normSet `{}` vs reference `{w}` for `{}`", m[i], lean_lines[i]), json!({})); } }
+    }
+    rep
+}
+
+fn cases(rep: &mut Report, rng: &mut Rng, n: usize, big: Option<(&EGraph, usize, String)>, lean_lines: &mut Vec<String>, lean_expect: &mut Vec<String>) {
+    let fill = big.as_ref().map(|b| b.1).unwrap_or(0);
     for ci in 0..n {
         let nsteps = 3 + rng.below(8);
         let mut steps = vec![];
-        for _ in 0..(3 + rng.below(4)) { steps.push(Step::Add(gen_cont(&mut rng))); }
-        for _ in 0..nsteps { steps.push(match rng.below(10) { 0..=2 => Step::Add(gen_cont(&mut rng)), 3..=7 => Step::Union(rng.below(4), rng.below(4)), _ => Step::Run }); }
+        for _ in 0..(3 + rng.below(4)) { steps.push(Step::Add(gen_cont(rng))); }
+        for _ in 0..nsteps { steps.push(match rng.below(10) { 0..=2 => Step::Add(gen_cont(rng)), 3..=7 => Step::Union(rng.below(4), rng.below(4)), _ => Step::Run }); }
         steps.push(Step::Run);
         rep.evaluations += 1;
-        let mut semi = EGraph::default(); let mut naive = EGraph::default(); naive.seminaive = false;
-        let mut par = EGraph::default().with_num_threads(4);
-        for e in [&mut semi, &mut naive, &mut par] { engine::run(e, HDR); }
+        let (mut semi, mut naive, mut par) = match &big {
+            None => { let mut a = EGraph::default(); let mut b = EGraph::default(); let mut c = EGraph::default().with_num_threads(4); for e in [&mut a, &mut b, &mut c] { engine::run(e, HDR); } (a, b, c) }
+            Some((base, _, _)) => ((*base).clone(), (*base).clone(), (*base).clone().with_num_threads(4)),
+        };
+        naive.seminaive = false;
         let mut f: Vec<usize> = (0..4).collect();
         let mut holders: Vec<Cont> = vec![];
         let mut marked: BTreeSet<Cont> = BTreeSet::new(); // normal forms of holders marked by a run so far
-        let mut prog = String::from(HDR);
+        let mut prog = String::from(HDR) + big.as_ref().map(|b| b.2.as_str()).unwrap_or("");
         let mut nontrivial = false;
         for (si, st) in steps.iter().enumerate() {
             let t = step_text(st);
@@ -98,7 +119,7 @@ pub fn run(ctx: &Ctx) -> Report {
             let mut bad = None;
             for (ename, eg) in [("semi-naive", &mut semi), ("naive", &mut naive), ("4 threads", &mut par)] {
                 for k in ["HV", "HS", "HM", "HP", "HMap", "HVS"] {
-                    let want = sizes.get(k).map(|s| s.len()).unwrap_or(0);
+                    let want = sizes.get(k).map(|s| s.len()).unwrap_or(0) + if ["HV", "HS", "HM"].contains(&k) { fill } else { 0 };
                     let got = eg.get_size(k);
                     if got != want { bad = Some((ename, format!("table {k} has {got} rows, {want} distinct containers modulo the current equalities"))); }
                 }
@@ -132,9 +153,4 @@ pub fn run(ctx: &Ctx) -> Report {
             if let Cont::Set(w) = h.norm(&f) { lean_expect.push(w.iter().map(|x| x.to_string()).collect::<Vec<_>>().join(" ")); }
         } }
     }
-    match run_driver(&lean_lines) {
-        Err(e) => rep.violate("correspondence", "driver-failure", e, json!({})),
-        Ok(m) => for (i, w) in lean_expect.iter().enumerate() { rep.traces_vs_model += 1; if &m[i] != w { rep.violate("correspondence", "c14-model-mismatch", format!("Lean normSet `{}` vs reference `{w}` for `{}`", m[i], lean_lines[i]), json!({})); } }
-    }
-    rep
 }
